@@ -14,6 +14,9 @@ def check(run):
     ef.builtins_model_and_replay(run, "un", "un", "AllIdx", "C03")
     ef.builtins_model_and_replay(run, "post", "post", "AllIdx", "C03")
     ef.builtins_model_and_replay(run, "fn", "fn", "CoreIdx" if not thorough else "AllIdx", "C03")
+    # the conditional: its value is the selected branch's; the other branch (failing, assigning) plays no part; a non-boolean condition is an error
+    run.rules.append("the conditional operator: 8 programs whose unselected branch fails or assigns, nested, with a non-boolean and a None condition: value and final context from the denotation")
+    ef.eval_model_and_replay(run, "cond", ef.mceval_cfg("c03-cond", family="cond"), "C03", sample_filter=lambda r: True)
     ef.builtins_trace(run, "wide", 40000 if thorough else 6000, run.seed, "C03")
     run.exhaustive = False
     run.assumptions += ["don't-care classes: results that are in range but not representable in 96 bits / 28 places (rust_decimal rounds), `%` whose operand alignment exceeds 96 bits, "
